@@ -271,6 +271,55 @@ def search(ctx):
     return None
 
 
+ARG_EXPRS = ["super.m", "self.f", "o.f", "self.m", "o.m", "l[0]", "g", "g(1)", "o.m()", "super.m()", "self.m()", "super.n(2)", "1", '"s"',
+             "|x| x", "o.f + 1", "!o", "o.f.f", "(o.f)", "[o.f]", "o.f && o.f", "o.f || o.m", "nil", "A", "A.sm", "A.sm()", '"${o.f}"', "true ? o.f : o.m"]
+ARG_CALLS = ["g(%s)", "g(1, %s)", "g(%s, 1)", "o.n(%s)", "self.n(%s)", "super.n(%s)", "A.sn(%s)", "g(g(%s))", "o.f.n(%s)", "launch g(%s)", "[1].push(%s)",
+             "g(%s)(1)", "o.n(%s).f", "return g(%s)", "let v = g(%s)", "o.f = g(%s)", "l[0] = g(%s)", "g(%s) + 1"]
+
+
+def argument_form_files(ctx):
+    """Every expression form as (last / first / only) argument of every call form, each in a method of its own: the
+    optimiser's fusion rules end in a call, and which instruction may directly precede a `Call` is decided by how
+    the compiler closes an argument (ArgumentDelimiter) — the functions are only compiled, and judged like the
+    fixture functions: real PRE stream, real optimiser output, free-semantics equivalence."""
+    d = os.path.join(common.VERIF, "work", "c12_argforms")
+    os.makedirs(d, exist_ok=True)
+    files = []
+    for ci, call in enumerate(ARG_CALLS):
+        lines = ["class A { init() { self.f = self; } m() { return 1; } n(x) { return x; } static sm() { return 1; } static sn(x) { return x; } }",
+                 "class B : A {", "  init() { super.init(); }"]
+        for ei, e in enumerate(ARG_EXPRS):
+            stmt = call % e
+            lines.append("  t%d(g, o, l) { %s; }" % (ei, stmt))
+        lines.append("}")
+        f = os.path.join(d, "a%02d.lay" % ci)
+        open(f, "w").write("\n".join(lines) + "\n")
+        files.append(f)
+    return files
+
+
+def compiler_streams_spec(ctx, label, funs):
+    """For streams the compiler itself produced the claim is unconditional (no envelope): the real optimiser's output must be
+    equivalent to the pre-optimisation stream under the free semantics.  Returns True iff all are."""
+    cand = [f for f in funs if f.get("PRE") and f["PRE"].count(";") < 6000]
+    pres = [f["PRE"] for f in cand]
+    _, io, _ = common.run_lines([common.harness_path(), "peephole"], pres)
+    ok = [(f, s, o) for f, s, o in zip(cand, pres, io) if not o.startswith(("PANIC", "bad-op"))]
+    _, eo, _ = common.run_lines([common.DRIVER, "peepequiv"], ["%s => %s" % (s, o) for _, s, o in ok])
+    ctx.stream_stat(label, functions=len(cand), judged=len(eo))
+    for (f, s, o), v in zip(ok, eo):
+        if v != "equiv":
+            ctx.cov["impl_vs_spec_failures"] += 1
+            src = open(f["file"]).read() if f.get("file") and os.path.exists(f["file"]) else ""
+            ctx.violation(label + "_spec", {"engine": "peephole", "kind": "implementation-vs-spec",
+                                            "what": "a function the compiler emitted is changed by the optimiser: its output is not observationally "
+                                                    "equivalent to the pre-optimisation stream (free semantics): " + v[:200],
+                                            "function": f["head"], "file": f.get("file"), "input": s, "impl": o,
+                                            "program": src if len(src) < 6000 else src[:6000]})
+            return False
+    return True
+
+
 def run(ctx):
     proved = ctx.prove("LaytheVerif.Props.C12")
     ok_c, out_c = common.cargo_build()
@@ -316,14 +365,17 @@ def run(ctx):
         return
     ctx.sample({"random": rs[0][:300], "impl": impl_opt(rs[0])[:300]})
     # real compiler output
-    funs, rc = dump_functions(fixture_files())
+    funs, rc = dump_functions(fixture_files() + argument_form_files(ctx))
     pres = [f["PRE"] for f in funs if f.get("PRE")]
     posts = [f.get("POST", "") for f in funs if f.get("PRE")]
-    ctx.stream_stat("fixtures", functions=len(funs))
+    ctx.stream_stat("fixtures", functions=len(funs), argument_form_functions=sum(1 for f in funs if "c12_argforms" in (f.get("file") or "")))
     _, xo, _ = common.run_lines([common.DRIVER, "peepholex"], pres)
     notwd = [p for p, x in zip(pres, xo) if x.split("|")[0].split() != ["1", "1"]]
     ctx.cov["compiler_output_outside_envelope"] = len(notwd)
     if notwd:
+        # outside the envelope the preservation theorem says nothing: judge every compiler-produced stream directly
+        if not compiler_streams_spec(ctx, "compiler_streams", funs):
+            return
         ctx.violation("envelope", {"kind": "envelope-violated", "broken": "wellDelimited does not hold of a stream the compiler produced "
                                    "(hypothesis of C12_preserves)", "input": notwd[0]}, no_input=True)
         return
@@ -343,6 +395,17 @@ def replay(path):
     s = r.get("input", "")
     common.cargo_build()
     common.lake_build(["driver"])
+    if r.get("program") and r.get("function"):
+        # a function the compiler emitted: compile the program again and judge what the compiler and optimiser produce now
+        tmp = os.path.join(common.VERIF, "work", "c12_replay.lay")
+        open(tmp, "w").write(r["program"])
+        funs, _ = dump_functions([tmp])
+        name = r["function"].split()[1] if len(r["function"].split()) > 1 else ""
+        funs = [f for f in funs if name in f["head"]] or funs
+        c = common.Ctx("C12", "quick", 0)
+        ok = compiler_streams_spec(c, "replay", funs)
+        print("functions judged:", len(funs), "all equivalent to their pre-optimisation stream:", ok)
+        return 0 if ok else 1
     print("input:", s)
     print("impl :", impl_opt(s))
     print("model:", model_opt(s))
